@@ -95,3 +95,40 @@ def substitute_equivalents(live: ast.Module, modname: str, is_pkg: bool) -> List
             lbody[li] = new
             done.append(qual)
     return done
+
+
+def canonical_view(live: ast.Module, modname: str, is_pkg: bool) -> List[str]:
+    """Second *view* of a module for the rules: every function that differs from its reference version (and is not
+    canonically equal to it -- those were already replaced by ``substitute_equivalents``) is replaced by its own
+    canonical normal form (temporaries inlined, if/else normal form, loops as comprehensions, idioms unified; local
+    names kept). The normal form is an equivalent program, so an obligation discharged on it is discharged."""
+    from .canon import canonical_function
+
+    ref = reference_tree(modname, is_pkg)
+    lf = _functions(live)
+    rf = _functions(ref) if ref is not None else {}
+    done: List[str] = []
+    for qual, (lbody, li) in lf.items():
+        L = lbody[li]
+        if qual in rf:
+            rbody, ri = rf[qual]
+            if _plain(L) == _plain(rbody[ri]):
+                continue
+        try:
+            new = canonical_function(L, rename=False)
+        except Exception:
+            continue
+        new.decorator_list = L.decorator_list
+        new.args = L.args
+        new.returns = L.returns
+        ast.copy_location(new, L)
+        for n in ast.walk(new):
+            if not hasattr(n, "lineno") and isinstance(n, (ast.stmt, ast.expr)):
+                n.lineno = getattr(L, "lineno", 1)
+                n.col_offset = 0
+                n.end_lineno = getattr(L, "end_lineno", n.lineno)
+                n.end_col_offset = 0
+        ast.fix_missing_locations(new)
+        lbody[li] = new
+        done.append(qual)
+    return done
